@@ -372,3 +372,131 @@ def _fmtl(vals):
     if len(vals) > 14:
         vals = vals[:7] + ["..."] + vals[-6:]
     return "[" + ",".join(v if isinstance(v, str) else _fmt(v) for v in vals) + "]"
+
+
+# ---------------------------------------------------------------------------
+# Observation rows (rule K-pw): piecewise structure / formatting
+# ---------------------------------------------------------------------------
+class ObsRow(object):
+    """For every representative v: interpret `func` seeded by vary(v) and
+    compare observe(result, interp) with expected(v).  Used for short
+    if/elif tables and straight-line formatting code whose value is fixed by
+    a standard (headers, thresholds, domain bytes)."""
+
+    def __init__(self, rid, prop, mod, func, points, vary, observe, expected,
+                 base=None, self_obj=None, cite="", max_depth=3, models=None,
+                 rule="K-pw", what="", inject=None, snippet=None):
+        self.rid, self.prop, self.mod, self.func = rid, prop, mod, func
+        self.points, self.vary = points, vary
+        self.observe, self.expected = observe, expected
+        self.base = base or {}
+        self.self_obj = self_obj
+        self.cite = cite
+        self.max_depth = max_depth
+        self.models = models or {}
+        self.rule = rule
+        self.what = what
+        self.inject = inject or {}
+        self.snippet = snippet
+
+
+def make_snippet(repo, modname, src):
+    """Parse checker-side driver code `def NAME(args): ...` so that it can be
+    interpreted in the namespace of module `modname` (nothing is executed)."""
+    mod = repo.module(modname)
+    tree = ast.parse(src)
+    fn = tree.body[0]
+    for node in ast.walk(tree):
+        for ch in ast.iter_child_nodes(node):
+            ch._parent = node
+    fn._parent = None
+    fn._qualname = fn.name
+    fn._module = mod
+    return mod, fn
+
+
+def local_at_exit(res, name):
+    """Value of a local of the entry function at its normal exit(s)."""
+    vals = []
+    for o in res.returns():
+        if o.state is not None and o.depth == 0:
+            vals.append(o.state.frames[0].get(name, UNK))
+    if not vals:
+        return "<no normal exit>"
+    v = vals[0]
+    for x in vals[1:]:
+        from .absval import join
+        v = join(v, x)
+    return v
+
+
+def run_obs(check, repo, row):
+    if row.snippet is not None:
+        mod, fn = make_snippet(repo, row.mod, row.snippet)
+    else:
+        mod = repo.module(row.mod)
+        fn = repo.func(mod, row.func)
+    wrong = []
+    seen = []
+    for v in row.points:
+        seed = row.vary(v)
+        if seed is None:
+            continue
+        inject = dict(row.inject)
+        inject.update(seed.get("inject", {}))
+        it = Interp(repo, max_depth=row.max_depth, extra_models=row.models,
+                    inject=inject)
+        st = State()
+        memo = {}
+        args = dict((k, realise(s, it, st, memo)) for k, s in row.base.items())
+        me = None
+        if row.self_obj is not None:
+            me = realise(row.self_obj, it, st, memo)
+            for k, x in seed.get("self", {}).items():
+                st.heap[me.ident][k] = realise(x, it, st, memo)
+        for k, x in seed.get("args", {}).items():
+            args[k] = realise(x, it, st, memo)
+        if "dict" in seed:
+            p, key, x = seed["dict"]
+            args.setdefault(p, {})[key] = realise(x, it, st, memo)
+        res = it.run(mod, fn, args, self_obj=me, state=st)
+        got = row.observe(res, it)
+        want = row.expected(v)
+        lab = v if isinstance(v, str) else _fmt(v) if isinstance(v, int) else repr(v)
+        seen.append("%s->%s" % (lab, _fmtv(got)))
+        if not _same_obs(got, want):
+            wrong.append("%s: got %s, standard %s" % (lab, _fmtv(got), _fmtv(want)))
+    if not seen:
+        raise AnalysisError("row %s: no point applicable" % row.rid)
+    check.count("piecewise_region_representatives", len(seen))
+    check.ob(row.rule, "%s|%s" % (row.rule, row.rid), not wrong, mod.path,
+             getattr(fn, "lineno", 0) if row.snippet is None else 0,
+             extracted=("; ".join(seen[:10]) if not wrong else "WRONG " + "; ".join(wrong[:4])),
+             expected=row.what or "value fixed by the standard for every region",
+             note=row.cite)
+    return not wrong
+
+
+def _fmtv(v):
+    if isinstance(v, (bytes, bytearray)):
+        h = bytes(v).hex()
+        return "0x" + (h if len(h) <= 40 else h[:20] + ".." + h[-12:] + "(%dB)" % len(v))
+    if isinstance(v, int) and not isinstance(v, bool):
+        return _fmt(v)
+    return repr(v)
+
+
+def _same_obs(a, b):
+    from .absval import same
+    if isinstance(a, (bytes, bytearray)) and isinstance(b, (bytes, bytearray)):
+        return bytes(a) == bytes(b)
+    if type(a) in (int, bool, str, tuple, type(None)) and type(b) in (int, bool, str, tuple, type(None)):
+        return a == b
+    return same(a, b)
+
+
+def called(name):
+    """observe helper: was a callee with this (last) name called?"""
+    def f(res, it):
+        return any(e.kind == "call" and e.name.split(".")[-1] == name for e in res.events)
+    return f
